@@ -236,6 +236,158 @@ Proof.
 Qed.
 
 
+(* ---- expansion along the first row; the determinant of the transpose ---------------------------------- *)
+
+Definition fdelta (j q : nat) : F := if Nat.eqb j q then 1 else 0.
+Lemma fdelta_zero_comb : forall q, 0 * fdelta O q + 0 * fdelta O q = 0. Proof. intros; ring. Qed.
+
+Lemma ldetf_row_sum : forall N n r f (u : nat -> F), r < n ->
+  ldetf n (setrow r (fun q => bsum N (fun j => u j * fdelta j q)) f) =
+  bsum N (fun j => u j * ldetf n (setrow r (fdelta j) f)).
+Proof.
+  induction N as [|N IH]; intros n r f u Hr.
+  - cbn [LinAlg_proofs.bsum].
+    rewrite (ldetf_ext K n _ (setrow r (fun q => 0 * fdelta O q + 0 * fdelta O q) f)).
+    + rewrite (ldetf_row_linear K HK) by auto. ring.
+    + intros i q _ _. unfold setrow. destruct (Nat.eqb i r); auto. symmetry. apply fdelta_zero_comb.
+  - rewrite bsum_S.
+    rewrite (ldetf_ext K n _ (setrow r (fun q => 1 * (fun q0 => bsum N (fun j => u j * fdelta j q0)) q + u N * fdelta N q) f)).
+    + rewrite (ldetf_row_linear K HK) by auto. rewrite IH by auto. ring.
+    + intros i q _ _. unfold setrow. destruct (Nat.eqb i r); auto. rewrite bsum_S. ring.
+Qed.
+
+Lemma ldetf_unit_row0 : forall n j f, j < S n ->
+  ldetf (S n) (setrow O (fdelta j) f) = sgn j * ldetf n (fminor2 O j f).
+Proof.
+  intros n j f Hj. set (W := setrow O (fdelta j) f).
+  rewrite <- (ldetf_eliminate K HK (S n) O (fun i => W i j) W) by lia.
+  rewrite (ldetf_col_expand j n _ Hj).
+  rewrite (bsum_shift K HK). rewrite (bsum_zero K HK).
+  - unfold W, setrow, fdelta. cbn [Nat.eqb]. rewrite Nat.eqb_refl.
+    assert (sgn O = 1) as -> by reflexivity.
+    rewrite (ldetf_ext K n _ (fminor2 O j f)); [ring|].
+    intros a b _ _. unfold fminor2, skip.
+    replace (Nat.ltb a O) with false by (symmetry; apply Nat.ltb_ge; lia).
+    replace (Nat.eqb (S a) O) with false by reflexivity.
+    destruct (Nat.ltb_spec b j).
+    + replace (Nat.eqb j b) with false by (symmetry; apply Nat.eqb_neq; lia). ring.
+    + replace (Nat.eqb j (S b)) with false by (symmetry; apply Nat.eqb_neq; lia). ring.
+  - intros i Hi. unfold W, setrow, fdelta. cbn [Nat.eqb]. rewrite Nat.eqb_refl. ring.
+Qed.
+
+Theorem ldetf_row_expand : forall n f,
+  ldetf (S n) f = bsum (S n) (fun j => sgn j * f O j * ldetf n (fminor2 O j f)).
+Proof.
+  intros n f.
+  rewrite (ldetf_ext K (S n) f (setrow O (fun q => bsum (S n) (fun j => f O j * fdelta j q)) f)).
+  - rewrite ldetf_row_sum by lia. apply (bsum_ext K). intros j Hj.
+    rewrite ldetf_unit_row0 by auto. ring.
+  - intros i q Hi Hq. unfold setrow. destruct (Nat.eqb_spec i O) as [->|]; auto.
+    rewrite (bsum_ext K (S n) _ (fun j => (if Nat.eqb q j then 1 else 0) * f O j)).
+    + now rewrite (bsum_delta K HK).
+    + intros j _. unfold fdelta. rewrite (Nat.eqb_sym j q). ring.
+Qed.
+
+Theorem ldetf_transpose : forall n f, ldetf n (fun i j => f j i) = ldetf n f.
+Proof.
+  induction n as [|n IH]; intros f; [reflexivity|].
+  rewrite (ldetf_row_expand n f). cbn [Det_proofs.ldetf]. apply (bsum_ext K). intros i Hi.
+  f_equal. rewrite <- (IH (fminor2 O i f)). apply (ldetf_ext K). intros a b _ _.
+  unfold fminor, fminor2, skip.
+  replace (Nat.ltb b O) with false by (symmetry; apply Nat.ltb_ge; lia). reflexivity.
+Qed.
+
+(* the coded determinant of the coded transpose *)
+Theorem det_transpose : forall n (M : @matrix F), wf_matrix n n M -> 0 < n ->
+  determinant K (transpose K M) = determinant K M.
+Proof.
+  intros n M Hwf Hn.
+  rewrite (det_value K HK n _ (wf_transpose K n n M Hwf Hn)), (det_value K HK n M Hwf). unfold ldet.
+  rewrite <- (ldetf_transpose n (fun i j => entry K i j M)).
+  apply (ldetf_ext K). intros i j Hi Hj. apply (entry_transpose K). now rewrite (ncols_wf n n M Hwf Hn).
+Qed.
+
+(* ---- full multiplicativity of the coded determinant ---------------------------------------------------- *)
+
+(* a singular matrix (TryInv fails) annihilates a non-zero vector *)
+Lemma try_inv_none_kernel : forall n (M : @matrix F), wf_matrix n n M -> 0 < n -> try_inv K M = None ->
+  exists u k, length u = n /\ k < n /\ nth k u 0 = 1 /\ mvec K M u = zero_vec K n.
+Proof.
+  intros n M Hwf Hn Ht. pose proof Hwf as [HL _].
+  unfold try_inv in Ht. unfold nrows in Ht. rewrite HL in Ht.
+  assert (Hinit : inv_inv K n 0 M (identity K n)).
+  { constructor; auto using wf_identity. intros; lia. }
+  pose proof (inv_loop_spec K HK n n 0 M (identity K n) Hinit ltac:(lia)) as Hs.
+  destruct (inv_loop K n 0 (M, identity K n)) as [st|]; [discriminate|].
+  destruct Hs as (k & a & out & Hk & [Hwa Hwo Hunit] & Hz & Hker).
+  pose proof Hwa as [HLa _]. pose proof Hwo as [HLo _].
+  set (uf := fun j => if Nat.ltb j k then fopp K (entry K j k a) else if Nat.eqb j k then 1 else 0).
+  set (u := map uf (seq 0 n)).
+  assert (Hul : length u = n) by (unfold u; now rewrite map_length, seq_length).
+  assert (Hun : forall j, j < n -> nth j u 0 = uf j).
+  { intros j Hj. unfold u. rewrite (nth_indep _ 0 (uf (nth j (seq 0 n) O))) by now rewrite map_length, seq_length.
+    rewrite (map_nth uf). now rewrite seq_nth. }
+  assert (H1 : ker2 K a out u (zero_vec K n)).
+  { intros i. rewrite (dot_zero_r K HK).
+    destruct (Nat.ltb_spec i n) as [Ei|Ei].
+    2:{ rewrite (row_overflow a i) by lia. rewrite (dot_nil_l K). ring. }
+    rewrite (dot_bsum K HK _ _ n) by (right; lia).
+    rewrite (bsum_ext K n _ (fun j => (if Nat.eqb i j then 1 else 0) * (if Nat.ltb j k then fopp K (entry K j k a) else 0)
+                                     + (if Nat.eqb k j then 1 else 0) * entry K i k a)).
+    - rewrite (bsum_add K HK), !(bsum_delta K HK) by auto.
+      destruct (Nat.ltb_spec i k) as [Eik|Eik]; [ring|]. rewrite (Hz i Eik). ring.
+    - intros j Hj. rewrite Hun by auto. unfold uf. rewrite <- (entry_row K).
+      destruct (Nat.ltb_spec j k) as [Ejk|Ejk].
+      + rewrite Hunit by auto.
+        replace (Nat.eqb k j) with false by (symmetry; apply Nat.eqb_neq; lia). ring.
+      + rewrite (Nat.eqb_sym k j). destruct (Nat.eqb_spec j k) as [->|Ej2]; ring. }
+  apply Hker in H1.
+  exists u, k. split; [auto|]. split; [auto|]. split.
+  - rewrite Hun by auto. unfold uf. rewrite Nat.ltb_irrefl, Nat.eqb_refl. reflexivity.
+  - apply (nth_ext_eq _ _ 0); [now rewrite (mvec_length K), (zero_vec_length K)|].
+    intros i Hi. rewrite (mvec_length K), HL in Hi. rewrite (nth_mvec K), (nth_zero_vec K).
+    specialize (H1 i). rewrite (dot_zero_r K HK) in H1. rewrite <- H1. ring.
+Qed.
+
+Lemma kernel_singular : forall n (M : @matrix F) u k, wf_matrix n n M -> 0 < n -> length u = n ->
+  nth k u 0 = 1 -> mvec K M u = zero_vec K n -> try_inv K M = None.
+Proof.
+  intros n M u k Hwf Hn Hul Hk Hu. destruct (try_inv K M) as [N|] eqn:E; auto. exfalso.
+  destruct (try_inv_sound K HK n M N Hwf Hn E) as (HwN & _ & HNM).
+  assert (Hu0 : u = zero_vec K n).
+  { rewrite <- (mvec_identity K HK n u Hul), <- HNM.
+    rewrite (mvec_mmul K HK n n n) by auto. rewrite Hu, (mvec_zero_vec K HK). destruct HwN as [-> _]. reflexivity. }
+  rewrite Hu0, (nth_zero_vec K) in Hk. apply (f1_neq_0 K HK). auto.
+Qed.
+
+Theorem det_mul : forall n (A B : @matrix F), wf_matrix n n A -> wf_matrix n n B -> 0 < n ->
+  determinant K (mmul K A B) = determinant K A * determinant K B.
+Proof.
+  intros n A B HA HB Hn.
+  assert (HAB : wf_matrix n n (mmul K A B)) by (apply (wf_mmul K n n n); auto).
+  destruct (try_inv K A) as [NA|] eqn:EA.
+  - rewrite !(det_value K HK n) by auto. apply (ldet_mul_invertible K HK); auto. congruence.
+  - assert (HdA : determinant K A = 0) by now apply (det_zero_iff K HK n A HA Hn).
+    rewrite HdA.
+    destruct (try_inv K B) as [NB|] eqn:EB.
+    + (* B invertible: transpose *)
+      rewrite <- (det_transpose n (mmul K A B) HAB Hn).
+      rewrite (transpose_mul K HK n n n) by auto.
+      assert (HBt : wf_matrix n n (transpose K B)) by (apply (wf_transpose K); auto).
+      assert (HAt : wf_matrix n n (transpose K A)) by (apply (wf_transpose K); auto).
+      rewrite !(det_value K HK n) by (auto; apply (wf_mmul K n n n); auto).
+      rewrite (ldet_mul_invertible K HK n _ _ HBt HAt Hn).
+      * rewrite <- !(det_value K HK n) by auto. rewrite (det_transpose n A HA Hn), HdA. ring.
+      * intro E. apply (det_zero_iff K HK n _ HBt Hn) in E. rewrite (det_transpose n B HB Hn) in E.
+        apply (det_zero_iff K HK n B HB Hn) in E. congruence.
+    + (* B singular: A·B kills B's kernel vector *)
+      destruct (try_inv_none_kernel n B HB Hn EB) as (u & k & Hul & Hk & Hku & HBu).
+      assert (try_inv K (mmul K A B) = None).
+      { apply (kernel_singular n _ u k HAB Hn Hul Hku).
+        rewrite (mvec_mmul K HK n n n) by auto. rewrite HBu, (mvec_zero_vec K HK). destruct HA as [-> _]. reflexivity. }
+      apply (det_zero_iff K HK n _ HAB Hn) in H. rewrite H. ring.
+Qed.
+
 (* ---- Birkhoff interpolation in the exponent ------------------------------------------------------------ *)
 
 Lemma sequence_opt_map_all : forall {A B} (f : A -> option B) (h : A -> B) l,
